@@ -32,7 +32,9 @@ MA2 = (f"""(define (domain ma2)
 (:action log :parameters (?a - agent)
   :precondition (and (<= (total) 2)) :effect (and (increase (total) 1)))
 (:action refuel :parameters (?a - agent)
-  :precondition (and (< (fuel ?a) 2) (>= (total) 1)) :effect (and (increase (fuel ?a) 1) (not (done ?a)))))
+  :precondition (and (< (fuel ?a) 2) (>= (total) 1)) :effect (and (increase (fuel ?a) 1) (not (done ?a))))
+(:action reset :parameters (?a - agent)
+  :precondition (and (>= (total) 2)) :effect (and (assign (total) 0))))
 """, """(define (problem ma2p) (:domain ma2)
 (:objects {agents} - agent)
 (:init {fuel} (= (total) 1))
